@@ -24,27 +24,30 @@ type MWOp struct {
 	Op   string         `json:"op"` // insert update delete begin commit rollback refresh reopen advance
 	ID   int            `json:"id,omitempty"`
 	Key  int            `json:"key,omitempty"`
-	Set  map[string]int `json:"set,omitempty"` // column -> value (ints; unique per statement)
-	WT   int64          `json:"wt,omitempty"`  // ns after T0; 0 = connection default
-	Dur  int64          `json:"dur,omitempty"` // advance: ns
+	Set  map[string]int `json:"set,omitempty"`  // column -> value (ints; unique per statement)
+	WT   int64          `json:"wt,omitempty"`   // ns after T0; 0 = connection default
+	Dur  int64          `json:"dur,omitempty"`  // advance: ns
 	Null []string       `json:"null,omitempty"` // columns explicitly set to NULL
 }
 
 type MWParams struct {
-	EPN     int       `json:"epn"`
-	Cache   int       `json:"cache"`
-	Cols    []string  `json:"cols"` // non-key columns
-	Scripts [][]MWOp  `json:"scripts"`
-	Policy  string    `json:"policy"`
-	Inter   int       `json:"inter"`  // intermediate read-write openers launched while writers run
-	Perm    bool      `json:"perm"`   // permute merge order at opens
+	EPN     int          `json:"epn"`
+	Cache   int          `json:"cache"`
+	Cols    []string     `json:"cols"` // non-key columns
+	Scripts [][]MWOp     `json:"scripts"`
+	Policy  string       `json:"policy"`
+	Inter   int          `json:"inter"` // intermediate read-write openers launched while writers run
+	Perm    bool         `json:"perm"`  // permute merge order at opens
 	Faults  []*FaultSpec `json:"faults,omitempty"`
-	Readers int       `json:"readers"`
+	Readers int          `json:"readers"`
 }
 
 // Valid checks the preconditions of the quantifier: statements have
 // pairwise distinct write times (a repeated ID is a byte-identical retry).
 func (p *MWParams) Valid() bool {
+	if p.EPN == 1 || p.EPN < 0 || p.Cache < 0 {
+		return false // entries_per_node=1 is outside the quantified range (2..4096); mast's integer layer function does not terminate for it
+	}
 	if len(p.Cols) == 0 || len(p.Scripts) == 0 || len(p.Scripts) > 6 || p.Inter > 4 || p.Readers < 1 || p.Readers > 4 {
 		return false
 	}
@@ -101,16 +104,18 @@ type MWView struct {
 }
 
 type MWRun struct {
-	P        *MWParams
-	W        *World
-	X        *Exec
-	Lay      Layout
-	Accepted map[int]MStmt       // by statement ID (retries share the ID of the original)
-	Own      map[string][]int    // version name -> IDs of statements committed by it
-	VerObj   map[string]*RootInfo // every version object ever PUT
-	Views    []MWView
-	Tables   map[string]string
-	Errs     []string
+	P           *MWParams
+	W           *World
+	X           *Exec
+	Lay         Layout
+	Accepted    map[int]MStmt        // by statement ID (retries share the ID of the original)
+	Own         map[string][]int     // version name -> IDs of statements committed by it
+	VerObj      map[string]*RootInfo // every version object ever PUT
+	Views       []MWView
+	Tables      map[string]string
+	Errs        []string
+	AfterCommit func(c *Client, version string) // called on the client's goroutine after every acknowledged commit
+	NoopWrote   []string                        // statements that changed nothing but still wrote objects
 }
 
 // versionWatcher records every version object PUT under current/.
@@ -263,7 +268,7 @@ func (m *MWRun) View(c *Client, label string, pending []int) *MWView {
 // RunScript executes one client's script. Called on the client's goroutine.
 func (m *MWRun) RunScript(c *Client, script []MWOp) {
 	t := m.Tables[c.Name]
-	var txn []int  // accepted statement IDs in the open explicit transaction
+	var txn []int // accepted statement IDs in the open explicit transaction
 	inTxn := false
 	var curWT int64 = -1
 	commitOwn := func(ids []int) {
@@ -276,6 +281,20 @@ func (m *MWRun) RunScript(c *Client, script []MWOp) {
 			return
 		}
 		m.Own[vers[0]] = append(m.Own[vers[0]], ids...)
+		if m.AfterCommit != nil {
+			m.AfterCommit(c, vers[0])
+		}
+	}
+	noop := func(what string, f func() error) {
+		before := len(m.W.S.Mut)
+		if err := f(); err != nil {
+			m.Errs = append(m.Errs, fmt.Sprintf("%s: %s: %v", c.Name, what, err))
+			return
+		}
+		if mine := m.W.S.MutBy(c.Name, before); len(mine) != 0 {
+			m.NoopWrote = append(m.NoopWrote, fmt.Sprintf("%s: %s wrote %v", c.Name, what, mutKeys(mine)))
+		}
+		m.X.Probe("noop-statement-checked")
 	}
 	for _, op := range script {
 		c.Step(op.Op)
@@ -326,6 +345,35 @@ func (m *MWRun) RunScript(c *Client, script []MWOp) {
 			}
 		case "view":
 			m.View(c, "view", txn)
+		case "noop-update":
+			if !inTxn {
+				noop("UPDATE matching no row", func() error {
+					_, err := c.Exec(fmt.Sprintf("update %s set %s=1 where k=?", t, m.P.Cols[0]), -987654)
+					return err
+				})
+			}
+		case "noop-delete":
+			if !inTxn {
+				noop("DELETE matching no row", func() error { _, err := c.Exec(fmt.Sprintf("delete from %s where k=?", t), -987654); return err })
+			}
+		case "noop-txn":
+			if !inTxn {
+				noop("empty transaction", func() error {
+					if _, err := c.Exec("BEGIN"); err != nil {
+						return err
+					}
+					if _, err := c.Query("select count(*) from " + t); err != nil {
+						return err
+					}
+					_, err := c.Exec("COMMIT")
+					return err
+				})
+			}
+		case "noop-refresh":
+			// only meaningful when no other client can have committed in between
+			if !inTxn && len(m.P.Scripts) == 1 && m.P.Inter == 0 {
+				noop("refresh with nothing new", func() error { _, err := c.Query("select s3db_refresh(?)", t); return err })
+			}
 		case "insert", "update", "delete":
 			if op.WT != curWT {
 				if err := c.SetWriteTime(op.WT); err != nil {
@@ -422,9 +470,10 @@ func isConstraint(err error) bool {
 
 type MWGenOpts struct {
 	MaxClients, MaxStmts, MaxKeys, MaxCols int
-	Retries    bool // insert verbatim retries of earlier statements
-	Decreasing bool // write times may decrease on one writer
-	Txns       bool
+	Retries                                bool // insert verbatim retries of earlier statements
+	Decreasing                             bool // write times may decrease on one writer
+	Txns                                   bool
+	Noops                                  bool
 }
 
 func GenMW(r *rand.Rand, o MWGenOpts) *MWParams {
@@ -516,6 +565,9 @@ func GenMW(r *rand.Rand, o MWGenOpts) *MWParams {
 		if inTxn[c] && r.IntN(3) == 0 {
 			p.Scripts[c] = append(p.Scripts[c], MWOp{Op: "commit"})
 			inTxn[c] = false
+		}
+		if o.Noops && !inTxn[c] && r.IntN(4) == 0 {
+			p.Scripts[c] = append(p.Scripts[c], MWOp{Op: []string{"noop-update", "noop-delete", "noop-txn", "noop-refresh"}[r.IntN(4)]})
 		}
 		if !inTxn[c] {
 			switch r.IntN(8) {
